@@ -3,7 +3,9 @@ import RisorModel.Generated.C08
 /-!
 C08 ties: the converter registries regenerated from `object/typeconv.go` on this run equal the
 tables frozen here, and the frozen tables are what the model's `sel`, `fromLeaf` (the unnamed-type
-assertion) and `scalarTo` / `toLeaf` (accepted object types) implement.
+assertion) and `scalarTo` / `toLeaf` (accepted object types) implement.  The sites of the seven
+repairs (range checks in `From` / `To`, the length check of `ArrayConverter.To`, the nil case of
+`AsObjects`, the surplus check of `Proxy.call`, `vm.Run`'s `createVM`, the `namedConverter` of declared types) are regenerated and tied too.
 -/
 namespace Risor.C08
 open Risor.Generated.C08
@@ -20,7 +22,8 @@ def typeTable : List (String × String) :=
    ("bytes.NewBuffer(nil)", "BufferConverter"), ("[]byte{}", "ByteSliceConverter"),
    ("[]float64{}", "FloatSliceConverter")]
 
-/-- the Go type each kind converter's `From` asserts: the *unnamed* type of its kind -/
+/-- the Go type each kind converter's `From` asserts: the *unnamed* type of its kind (a value of a
+    declared type reaches it converted to that type by `namedConverter`, see `declared_type_tie`) -/
 def assertTable : List (String × String) :=
   [("BoolConverter", "bool"), ("IntConverter", "int"), ("Int8Converter", "int8"),
    ("Int16Converter", "int16"), ("Int32Converter", "int32"), ("Int64Converter", "int64"),
@@ -50,7 +53,7 @@ def acceptTable : List (String × String) :=
 theorem kind_table_tie : kindConverters = kindTable := by decide
 theorem type_table_tie : typeConverters = typeTable := by decide
 theorem lookup_order_tie :
-    lookupOrder = ["kindConverters[kind]", "typeConverters[typ]", "switch kind"] := by decide
+    lookupOrder = ["kindConverters[kind]", "basicTypes[kind]", "typeConverters[typ]", "switch kind"] := by decide
 theorem assert_table_tie : ∀ p ∈ assertTable, fromAsserts.lookup p.1 = some p.2 := by decide
 theorem accept_table_tie : ∀ p ∈ acceptTable, toAccepts.lookup p.1 = some p.2 := by decide
 
@@ -123,5 +126,94 @@ def acceptsOK : Bool :=
 /-- the object types the model's kind converters accept are exactly those of the `To` type
     switches (`Buffer` objects are outside the model) -/
 theorem accept_table_matches : acceptsOK = true := by decide
+
+/-! ### the repaired sites: regenerated = frozen, frozen = model
+
+Seven recorded defects were repaired in risor; the places of the repairs are regenerated on every
+run.  If a repair is lost the regenerated text differs from the frozen one (this file stops
+checking) — and the correspondence run shows the old behaviour as an unlisted violation. -/
+
+/-- what each integer converter's `To` returns for an `*Int` object -/
+def intCaseTable : List (String × String) :=
+  [("ByteConverter", "narrowInt[byte](obj.value)"), ("IntConverter", "narrowInt[int](obj.value)"),
+   ("Int8Converter", "narrowInt[int8](obj.value)"), ("Int16Converter", "narrowInt[int16](obj.value)"),
+   ("Int32Converter", "narrowInt[int32](obj.value)"), ("Int64Converter", "int64(obj.value)"),
+   ("UintConverter", "narrowInt[uint](obj.value)"), ("Uint8Converter", "narrowInt[uint8](obj.value)"),
+   ("Uint16Converter", "narrowInt[uint16](obj.value)"), ("Uint32Converter", "narrowInt[uint32](obj.value)"),
+   ("Uint64Converter", "narrowInt[uint64](obj.value)")]
+
+theorem int_case_tie : ∀ p ∈ intCaseTable, toIntCases.lookup p.1 = some p.2 := by decide
+
+/-- per integer kind narrower than the script's int64 (or unsigned): the model type, an int64 just
+    outside its range, its neighbour inside, and the checked conversion the converter uses -/
+def narrowSamples : List (String × GoTy × Int × Int × String) :=
+  [("Int8", .int .w8, 128, 127, "narrowInt[int8](obj.value)"),
+   ("Int16", .int .w16, 32768, 32767, "narrowInt[int16](obj.value)"),
+   ("Int32", .int .w32, 2147483648, 2147483647, "narrowInt[int32](obj.value)"),
+   ("Uint", .uint .w0, -1, 0, "narrowInt[uint](obj.value)"),
+   ("Uint8", .uint .w8, 256, 255, "narrowInt[uint8](obj.value)"),
+   ("Uint16", .uint .w16, 65536, 65535, "narrowInt[uint16](obj.value)"),
+   ("Uint32", .uint .w32, 4294967296, 4294967295, "narrowInt[uint32](obj.value)"),
+   ("Uint64", .uint .w64, -1, 0, "narrowInt[uint64](obj.value)")]
+
+/-- **narrow_matches**: every kind converter whose type cannot hold every int64 converts an
+    `*Int` through `narrowInt`, and the model's `To` for that kind rejects the value just outside
+    the range and accepts its neighbour unchanged -/
+theorem narrow_matches : ∀ p ∈ narrowSamples,
+    (kindTable.lookup p.1).bind (fun c => intCaseTable.lookup c) = some p.2.2.2.2 ∧
+    toLeaf F1 .get p.2.1 (.int p.2.2.1) = .error ∧
+    toLeaf F1 .get p.2.1 (.int p.2.2.2.1) = .ok (some (p.2.1, .int p.2.2.2.1)) := by decide
+
+/-- `byte` through `createTypeConverter` (ByteConverter) likewise -/
+theorem narrow_byte_matches :
+    intCaseTable.lookup "ByteConverter" = some "narrowInt[byte](obj.value)" ∧
+    toLeaf F1 .create (.uint .w8) (.int 256) = .error ∧
+    toLeaf F1 .create (.uint .w8) (.int 255) = .ok (some (.uint .w8, .int 255)) := by decide
+
+/-- `UintConverter.From` / `Uint64Converter.From` compare with math.MaxInt64 — and the model's
+    `From` rejects 2⁶³ and passes 2⁶³−1 -/
+theorem from_range_tie :
+    fromIfConds.lookup "UintConverter" = some "v > math.MaxInt64" ∧
+    fromIfConds.lookup "Uint64Converter" = some "v > math.MaxInt64" := by decide
+theorem from_range_matches :
+    scalarFrom F1 (.uint .w0) (.int two63) = .error ∧ scalarFrom F1 (.uint .w64) (.int two63) = .error ∧
+    scalarFrom F1 (.uint .w64) (.int (two63 - 1)) = .ok (.int (two63 - 1)) := by decide
+
+/-- `ArrayConverter.To` compares the lengths before its loop — and the model rejects a longer list -/
+theorem array_length_tie : arrayToIfConds = ["!ok", "len(list.items) > c.len", "err != nil"] := by decide
+theorem array_length_matches :
+    toBase F1 .get (.array 1 .bool) (.list (.cons (.bool true) (.cons (.bool true) .nil))) = .error ∧
+    toBase F1 .get (.array 1 .bool) (.list (.cons (.bool true) .nil))
+      = .ok (some (.array 1 .bool, .seq (.cons (.bool true) .nil))) := by decide
+
+/-- `AsObjects` has a case for the untyped nil — and the model gives the script `nil` -/
+theorem as_objects_tie : asObjectsCases = ["nil", "Object", "default"] := by decide
+theorem as_objects_matches : fromGlobal F1 none = .ok .nil := by decide
+
+/-- `Proxy.call` compares its argument index with len(args) from both sides — and the model
+    rejects too few and too many arguments -/
+theorem call_args_tie :
+    callArgConds = ["argIndex >= len(args)", "argIndex < len(args) && !isVariadic"] := by decide
+theorem call_args_matches :
+    callArgs F1 (.cons .bool .nil) .nil = .error ∧
+    callArgs F1 (.cons .bool .nil) (.cons (.bool true) (.cons (.bool true) .nil)) = .error ∧
+    callArgs F1 (.cons .bool .nil) (.cons (.bool true) .nil) = .ok (.cons (.bool true) .nil) := by decide
+
+/-- `getTypeConverter` wraps the kind converter of a DECLARED type (non-empty package path) in a
+    `namedConverter`, which converts to / from the basic type of the kind (`basicTypes[kind]` in
+    `lookup_order_tie`) — and in the model a declared type of a basic kind is selected by kind,
+    reads like its basic type and is written as a value of the declared type itself -/
+theorem declared_type_tie : declaredTypeConds = ["typ.PkgPath() != \"\""] := by decide
+theorem declared_type_matches :
+    sel .get (.named 1 (.int .w64)) = .scalar ∧ sel .create (.named 3 (.uint .w8)) = .scalar ∧
+    fromLeaf F1 .get (.named 1 (.int .w64)) (.int 5) = .ok (.int 5) ∧
+    toLeaf F1 .get (.named 1 (.int .w64)) (.int 5) = .ok (some (.named 1 (.int .w64), .int 5)) ∧
+    fromAsserts.lookup "namedConverter" = some "-" := by decide
+
+/-- `vm.Run` creates its machine with `createVM` (which returns the error of `applyOptions`), not
+    with `New` (which panics on it) — and the model's `evalGlobal` reports a conversion error as an
+    error -/
+theorem run_creates_tie : runCreatesWith = "createVM" := by decide
+theorem run_creates_matches : evalGlobal F1 (some (.chan, .nilv)) = .error := by decide
 
 end Risor.C08
